@@ -334,7 +334,7 @@ pub fn run_check(id: &str, tier: Tier) -> i32 {
             let meta = CheckMeta {
                 property: "C11",
                 level: "model_checking",
-                rule: "complete enumeration of substitution configurations: every function from a new window of m variables to an old window of n variables (n, m <= 4 quick / <= 5 thorough), every integer/object kind assignment of the old window, every window offset across the register/spill boundary (x86-64 0..8, AArch64 8..16, RV64 0..9 identity variables in front), with and without all objects aliasing one block, on all three backends. Beyond the complete space: windows of 6, 7, 9 (thorough 6..12) variables with every rotation, reversal, adjacent swaps, a chain ending in a fan-out, total fan-out, two disjoint cycles and the swap of the two ends, for all-integer / all-object / alternating kinds. Each case compiles one real Substitute statement, runs it from a pre-state with distinct sentinels and checks the post-state: simultaneous assignment, reference counts (+copies-1), each dropped last reference released exactly once onto the deferred list, and nothing else changed (heap words, heap register, stack pointer, stack above the spill area). Distinct by configuration; all configurations execute generated code.".into(),
+                rule: "complete enumeration of substitution configurations: every function from a new window of m variables to an old window of n variables (n, m <= 4 quick / <= 5 thorough), every integer/object kind assignment of the old window (objects once as data of chirality prd and once as closures / continuations of chirality cns), every window offset across the register/spill boundary (x86-64 0..8, AArch64 8..16, RV64 0..9 identity variables in front), with and without all objects aliasing one block, on all three backends. Beyond the complete space: windows of 6, 7, 9 (thorough 6..12) variables with every rotation, reversal, adjacent swaps, a chain ending in a fan-out, total fan-out, two disjoint cycles and the swap of the two ends, for all-integer / all-object / alternating kinds. Each case compiles one real Substitute statement, runs it from a pre-state with distinct sentinels and checks the post-state: simultaneous assignment, reference counts (+copies-1), each dropped last reference released exactly once onto the deferred list, and nothing else changed (heap words, heap register, stack pointer, stack above the spill area). Distinct by configuration; all configurations execute generated code.".into(),
                 assumptions: vec!["emulators as C06-C08".into(), "pre-state object counts 0/1/2 by block index; aliased block count = holders - 1 + (holders mod 2)".into()],
             };
             finish(&meta, tier, started, rep, Map::new())
